@@ -1,19 +1,22 @@
 import QipVerif.Gen.DecompRulesAll
 import QipVerif.Lemmas.DecompResolve
 import QipVerif.Lemmas.GateC
+import QipVerif.Lemmas.DecompDenWitness
 /-!
 # C03 — basis decomposition preserves the unitary exactly and stays in the basis
 
 Property theorems.  The rule tables `Gen.gateRule`/`Gen.basisRule` are REGENERATED from
 /repo on every run; `Gen.sound_*` (one module per rule, imported through
 `Gen.DecompRulesAll`) are the kernel-checked exact unitary identities of every fixed-angle
-rule, global phase included.  Here: the parametric rules for all angles, the output
+rule, global phase included.  Here: the parametric rules for all angles, the theorem that the
+model of `resolve_gates` preserves the complex unitary of every circuit (`resolve_den_partial`,
+all register sizes, basis specifications, placements and valuations of symbolic angles), the output
 alphabet and refusal theorems for all circuits and all basis specifications, and the
 Pauli-marker defect of the original code (repaired by a `fix:` commit; the model's
 `keepMarkers` flag selects the old behaviour for the counter-example).
 -/
 namespace QipVerif.C03
-open QipVerif QipVerif.Decomp QipVerif.Gen QipVerif.GateC
+open QipVerif QipVerif.Decomp QipVerif.Gen QipVerif.GateC Matrix
 
 /-! ## Parametric rules, for every angle θ ∈ ℝ (matrices generated from gates.py) -/
 
@@ -142,11 +145,97 @@ theorem pauli_markers_lost_counterexample :
   constructor <;> decide +kernel
 
 /-- With the repair the markers are kept and the unitary is exactly X (instance; the general
-statement is `resolve_names` + the rule theorems). -/
+statement is `resolve_den_partial` below). -/
 theorem pauli_markers_kept :
     resolve tables true (.str .CNOT) [⟨.X, [0], [], {}⟩]
       = .ok [⟨.GLOBALPHASE, [], [], .pi8 4⟩, ⟨.RX, [0], [], .pi8 8⟩] ∧
     sameDenE 1 [⟨.X, [0], [], {}⟩] [⟨.GLOBALPHASE, [], [], .pi8 4⟩, ⟨.RX, [0], [], .pi8 8⟩] = true := by
   constructor <;> decide +kernel
+
+/-! ## The unitary is preserved: every register, basis specification, circuit and valuation
+
+`denG N ρ gs = some U` says that every gate of `gs` is a well placed library gate on `N` qubits and
+that the circuit denotes `U` under the valuation `ρ` of its symbolic angles (`Lemmas/Sem.lean`).
+`inputOK g` = `wf1 g && phOK g`:
+* `wf1`: a gate named RX RY RZ X Y Z has no `controls` (the constructor of `SingleQubitGate` raises
+  otherwise; `resolve_gates` rebuilds these gates from `gate.targets` alone);
+* `phOK`: a PHASEGATE with a FIXED angle has an even `p8` (a multiple of π/4): the model's template
+  instantiation halves the fixed part by integer division.  Symbolic PHASEGATE angles (`p8 = 0`,
+  any coefficient, any valuation) are covered.
+Both exclusions are shown necessary for the model below. -/
+
+/-- the statement without side condition -/
+def ResolveDenUnrestricted : Prop :=
+  ∀ (N : ℕ) (ρ : ℕ → ℝ) (b : BasisSpec) (gs out : List Gate), resolve tables true b gs = .ok out →
+    ∀ U : Matrix (St N) (St N) ℂ, denG N ρ gs = some U → denG N ρ out = some U
+
+/-- **C03, unitary part.**  For every register size, every basis specification, every circuit of
+well placed library gates satisfying `inputOK` and every valuation of the symbolic angles:
+whatever the model of the repaired `resolve_gates` returns denotes exactly the same unitary,
+global phase included. -/
+theorem resolve_den_partial (N : ℕ) (ρ : ℕ → ℝ) (b : BasisSpec) (gs out : List Gate)
+    (hok : ∀ g ∈ gs, inputOK g = true)
+    (h : resolve tables true b gs = .ok out)
+    (U : Matrix (St N) (St N) ℂ) (hU : denG N ρ gs = some U) : denG N ρ out = some U :=
+  resolve_den_core N ρ b gs out hok h U hU
+
+/-- non-vacuity: a 3-qubit circuit with a rewritten 1-, 2- and 3-qubit gate, a Pauli, a PHASEGATE and
+a rotation to eliminate meets every hypothesis, in a basis where all stages run -/
+example (ρ : ℕ → ℝ) :
+    let gs : List Gate := [⟨.SNOT, [1], [], {}⟩, ⟨.CNOT, [0], [1], {}⟩, ⟨.X, [0], [], {}⟩,
+      ⟨.PHASEGATE, [2], [], .pi8 2⟩, ⟨.TOFFOLI, [1], [2, 0], {}⟩, ⟨.RX, [2], [], .pi8 6⟩]
+    (∀ g ∈ gs, inputOK g = true) ∧
+    (resolve tables true (.list [.CSIGN, .RY, .RZ]) gs).toOption.isSome = true ∧
+    ∃ U, denG 3 ρ gs = some U := by
+  refine ⟨by decide, by decide, denG_isSome_of_denE 3 ρ _ (by decide) (by decide +kernel)⟩
+
+/-- **Why `wf1` is needed.**  A Pauli gate whose qubit is listed under `controls` (the constructor
+of `SingleQubitGate` raises for it) is a well placed gate for `semG`, but `resolve_gates` rebuilds
+the rotation from `gate.targets`, which is empty. -/
+theorem resolve_den_unrestricted_counterexample : ¬ ResolveDenUnrestricted := by
+  intro H
+  have hres : resolve tables true (.str .CNOT) [⟨.X, [], [0], {}⟩]
+      = .ok [⟨.GLOBALPHASE, [], [], ⟨none, 0, 1, 4⟩⟩, ⟨.RX, [], [], ⟨none, 0, 1, 8⟩⟩] := by decide
+  have hx : ∃ U, denG 1 (fun _ => 0) [⟨.X, [], [0], {}⟩] = some U :=
+    denG_isSome_of_denE 1 _ _ (by decide) (by decide +kernel)
+  obtain ⟨U, hU⟩ := hx
+  have := H 1 (fun _ => 0) _ _ _ hres U hU
+  obtain ⟨_, R, _, hR, _⟩ := denG_cons_inv _ _ _ _ _ this
+  obtain ⟨A, _, hA, _, _⟩ := denG_cons_inv _ _ _ _ _ hR
+  obtain ⟨m, U', hm, _, _, hc, _⟩ := semD_inv _ _ _ _ hA
+  have hc' : compactC GName.RX (Ang.eval (fun _ => 0) ⟨none, 0, 1, 8⟩)
+      = some ⟨1, mat1 (G.rx_ (Ang.eval (fun _ => 0) ⟨none, 0, 1, 8⟩))⟩ := rfl
+  rw [hc'] at hc
+  cases hc
+  simp [Gate.qubits] at hm
+
+/-- **Why even `p8` is needed for a fixed-angle PHASEGATE.**  The model's template instantiation
+halves the fixed part of the angle by integer division (`TAng.inst`), so PHASEGATE(π/8) is rewritten
+to GLOBALPHASE(0)·RZ(π/8) — a limitation of the model's angle representation (multiples of π/8), not
+of the implementation, which halves a float.  The correspondence harness draws even `p8` only. -/
+theorem phasegate_odd_counterexample (ρ : ℕ → ℝ) :
+    resolve tables true (.str .CNOT) [⟨.PHASEGATE, [0], [], .pi8 1⟩]
+      = .ok [⟨.GLOBALPHASE, [], [], ⟨none, 0, 2, 0⟩⟩, ⟨.RZ, [0], [], ⟨none, 0, 1, 1⟩⟩] ∧
+    ∃ U, denG 1 ρ [⟨.PHASEGATE, [0], [], .pi8 1⟩] = some U ∧
+      denG 1 ρ [⟨.GLOBALPHASE, [], [], ⟨none, 0, 2, 0⟩⟩, ⟨.RZ, [0], [], ⟨none, 0, 1, 1⟩⟩] ≠ some U := by
+  refine ⟨by decide, ?_⟩
+  have hc : compactC GName.PHASEGATE ((Ang.pi8 1).eval ρ) = some ⟨1, mat1 (G.phasegate_ ((Ang.pi8 1).eval ρ))⟩ := rfl
+  have hsem : ∃ U, semD 1 ρ ⟨.PHASEGATE, [0], [], .pi8 1⟩ = some U :=
+    ⟨_, semD_of 1 ρ ⟨.PHASEGATE, [0], [], .pi8 1⟩ 1 _ hc rfl (by simp [Gate.qubits]) (by simp [Gate.qubits])⟩
+  obtain ⟨U, hU⟩ := hsem
+  refine ⟨U, by rw [denG_single]; exact hU, ?_⟩
+  obtain ⟨t, hUt, hall⟩ := semD_same_place 1 ρ _ U hU 1 _ hc
+  have h2 := hall ⟨.RZ, [0], [], ⟨none, 0, 1, 1⟩⟩ (mat1 (G.rz_ (Ang.eval ρ ⟨none, 0, 1, 1⟩))) rfl rfl
+  rw [denG_cons_some 1 ρ _ _ _ _ (semD_gphase 1 ρ _ rfl rfl) (by rw [denG_single]; exact h2)]
+  intro heq
+  have heq' := Option.some.inj heq
+  rw [hUt] at heq'
+  have e := congrFun (congrFun heq' (fun _ => 0)) (fun _ => 0)
+  have e0 : Ang.eval ρ ⟨none, 0, 2, 0⟩ = 0 := by simp [Ang.eval]
+  have e1 : Ang.eval ρ ⟨none, 0, 1, 1⟩ = Real.pi / 8 := by simp [Ang.eval]
+  simp only [Matrix.mul_smul, Matrix.mul_one, Matrix.smul_apply, Tg.embed_apply, mat1, e0, e1,
+    G.rz_, G.phasegate_] at e
+  simp [phase] at e
+  exact exp_sixteenth_ne_one (by simpa using e)
 
 end QipVerif.C03
